@@ -76,6 +76,13 @@ def families(tier):
                             params=dict(first_b='main', par_a=True, par_b=par_b),
                             scn=dict(buses={'A': dict(parallel=True), 'B': dict(parallel=par_b)}, order=o, handlers=hs,
                                      main=[('disp', 'B', 'X', 'await'), ('disp', 'A', 'P', 'ff')], actors=[], forwards=[], settle=3.0)))
+    # a sibling that awaits TWO children one after the other while the other sibling awaits one: turns must be taken on the same lock every time
+    for b1, b2, o in itertools.product('AB', 'AB', (['A', 'B'], ['B', 'A'])):
+        hs = [dict(bus='A', pat='P', name='h1', prog=[('disp', b1, 'C', 'await'), ('disp', b1, 'C2', 'await'), ('pause',)]),
+              dict(bus='A', pat='P', name='h2', prog=[('pause',), ('disp', b2, 'G', 'await'), ('disp', b2, 'G2', 'await')]),
+              dict(bus=b1, pat='C', name='hc', prog=[('pause',)]), dict(bus=b2, pat='G', name='hg', prog=[('pause',)])]
+        out.append(dict(prop='C06', family='c06.mutex.parallel_siblings', id=f'c06/sib-twice-{b1}{b2}-o{"".join(o)}', cfg=cfg, params=dict(first_b='main', par_a=True, par_b=False),
+                        scn=dict(buses={'A': dict(parallel=True), 'B': {}}, order=o, handlers=hs, main=[('disp', 'B', 'X', 'await'), ('disp', 'A', 'P', 'ff')], actors=[], forwards=[], settle=3.0)))
     # the same one level down: a single handler awaits a child whose TWO handlers (parallel bus) each await a grandchild
     for gb1, gb2, o in itertools.product('AB', 'AB', (['A', 'B'], ['B', 'A'])):
         hs = [dict(bus='A', pat='P', name='hp', prog=[('disp', 'A', 'C', 'await'), ('pause',)]),
